@@ -755,6 +755,7 @@ class CExec:
         if not (z3.is_expr(base) and base.sort() == Obj):
             raise Unsupported("field %s of %r" % (name, base))
         st = self.cx.require(st, base != NULL, "valid-deref:%s->%s" % ("p", name))
+        st = self.api.live(st, base, "p->" + name)
         if name in ("ob_type",):
             return self.api.call("Py_TYPE", [base], st, k)
         return k(self.field_array(st, name)[base], st)
@@ -774,6 +775,7 @@ class CExec:
 
             def k1(base, st2):
                 st2 = self.cx.require(st2, base != NULL, "valid-deref:store->%s" % fname)
+                st2 = self.api.live(st2, base, "store->" + fname)
                 arr = self.field_array(st2, fname)
                 srt = FIELD_SORTS[fname]
                 val = v
@@ -791,6 +793,8 @@ class CExec:
                     own = z3.If(old != NULL, z3.Store(own, old, own[old] + 1), own)
                     own = z3.If(val != NULL, z3.Store(own, val, own[val] - 1), own)
                     st3 = st2.with_own(own)
+                    if z3.is_expr(val):
+                        st3 = st3.gset("kept_by_field", st3.ghost.get("kept_by_field", ()) + (val,))
                 st3 = st3.with_mem(fname, z3.Store(arr, base, val))
                 st3 = st3.log(("store", fname, base, val))
                 return k(val, st3)
